@@ -12,6 +12,9 @@ import pathlib
 from dataclasses import dataclass, field
 
 
+from . import alpha
+
+
 class AnalysisError(Exception):
     """The analysis cannot be carried out (vanished anchor, parse error, unclassified op)."""
 
@@ -158,6 +161,7 @@ class Program:
                 tree = ast.parse(src, filename=str(f))
             except SyntaxError as e:
                 raise AnalysisError(f"parse error in {rel}: {e}") from e
+            self.n_alpha_renames = getattr(self, "n_alpha_renames", 0) + alpha.normalise(tree, str(rel))
             self.modules[name] = Module(name, f, str(rel), src, tree, is_pkg)
         if len(self.modules) < MIN_FILES:
             raise AnalysisError(f"only {len(self.modules)} modules parsed (< {MIN_FILES})")
